@@ -314,9 +314,15 @@ func caRootSetCASTxn(tx WriteTxn, idx, cidx uint64, rs []*structs.CARoot) error 
 // caRootSetCASAppliedTxn reports whether the roots were replaced: false means
 // the given index did not match and nothing was written.
 func caRootSetCASAppliedTxn(tx WriteTxn, idx, cidx uint64, rs []*structs.CARoot) (bool, error) {
-	// There must be exactly one active CA root.
-	activeCount := 0
+	// There must be exactly one active CA root. Roots listed with the same ID
+	// overwrite each other on insert (the last one wins), so count the active
+	// roots the table will hold rather than the listed ones.
+	lastByID := make(map[string]*structs.CARoot, len(rs))
 	for _, r := range rs {
+		lastByID[r.ID] = r
+	}
+	activeCount := 0
+	for _, r := range lastByID {
 		if r.Active {
 			activeCount++
 		}
